@@ -17,7 +17,8 @@ RULE = (
     "files holding 1..5 stacked pickles drawn from benign (generated plain values, protocols "
     "0-5) and flagged families (unused variable, non-stdlib import, dangerous import, eval call, "
     "duplicate PROTO, misplaced PROTO; all harmless if executed) x CLI options (--json-output "
-    "given / default, --print-results on / off). Oracle: one severity vector s_i = "
+    "given / default / unwritable (fault: only 'flagged => non-zero exit' is asserted), "
+    "--print-results on / off). Oracle: one severity vector s_i = "
     "check_safety(p_i).severity, ranked by an own table from the documented order; then "
     "max-rank of the findings == s_i and s_i is LIKELY_SAFE iff there are no findings; "
     "is_likely_safe(file) == (rank s_0 == 0); fickling.load(file) raises iff rank s_0 > 0 with "
@@ -145,6 +146,19 @@ def check_stack(parts, json_given, print_results, scratch):
         return fail(f"fickling.load {'raised' if raised else 'returned'} but the first verdict is {sev[0]}")
     if raised is not None and raised.info.get("severity") != sev[0]:
         return fail(f"UnsafeFileError.info severity {raised.info.get('severity')} != {sev[0]}")
+    if json_given == "unwritable":
+        # fault: the report cannot be written. Only the fail-closed direction is asserted: a
+        # flagged stack must not exit 0 (crashing counts as non-zero, as in a real process)
+        argv = ["fickling", "--check-safety", "--json-output",
+                os.path.join(scratch.path, "no_such_dir", "report.json"), path]  # fmt: skip
+        try:
+            with contextlib.redirect_stdout(io.StringIO()), contextlib.redirect_stderr(io.StringIO()):
+                rc = cli.main(argv)
+        except BaseException:  # noqa: BLE001
+            rc = 1
+        if rc == 0 and any(r > 0 for r in ranks):
+            return fail(f"report path unwritable: CLI exit status 0 although the verdicts are {sev}")
+        return None, "checked", ranks
     report = os.path.join(scratch.path, "custom_report.json" if json_given else "safety_results.json")
     argv = ["fickling", "--check-safety"]
     if json_given:
@@ -214,7 +228,9 @@ def run_shard(spec, seed):
         min_size=1, max_size=5,
     ).map(lambda xs: b"".join(xs) + b"N.")
     part = st.one_of(benign, st.sampled_from(FLAGGED), calls, calls)
-    strat = st.tuples(st.lists(part, min_size=1, max_size=5), st.booleans(), st.booleans())
+    strat = st.tuples(
+        st.lists(part, min_size=1, max_size=5), st.sampled_from([False, True, "unwritable"]), st.booleans()
+    )
     with Scratch("c10") as scratch:
 
         def body(case):
